@@ -432,7 +432,7 @@ func (rb *Buffer) WriteTo(w io.Writer) (int64, error) {
 			panic("RingBuffer.WriteTo: invalid Write count")
 		}
 		rb.r = (rb.r + m) % rb.size
-		if rb.r == rb.w {
+		if m == n {
 			rb.Reset()
 		}
 		if err != nil {
